@@ -40,9 +40,11 @@ func (p *Prog) errProducer(c *ssa.CallCommon) bool {
 	}
 	if c.IsInvoke() {
 		switch c.Method.Name() {
-		case "Write", "Read", "WriteString", "ReadByte", "Token", "Decode", "Encode":
+		case "Write", "WriteString", "ReadByte", "Token", "Decode", "Encode":
 			return true
 		}
+		// io.Reader.Read is owned by rule IO.read: an error delivered together with data must NOT be acted on before the
+		// data, and by the io.Reader contract it is delivered again by the next call.
 		return false
 	}
 	// dynamic call of a function value returning error (handlers return bool in mxj)
@@ -294,7 +296,7 @@ func certainlyNonNilError(v ssa.Value) bool {
 		return isCallTo(&x.Call, "errors.New", "fmt.Errorf")
 	case *ssa.UnOp:
 		if g := globalOf(x); g != nil {
-			return strings.HasSuffix(g.Name(), "Error") || g.Name() == "NoRoot" || g.Name() == "NO_ROOT" || g.Name() == "EOF"
+			return isErrorType(x.Type()) && (strings.HasSuffix(g.Name(), "Error") || strings.HasPrefix(g.Name(), "Err") || g.Name() == "NoRoot" || g.Name() == "NO_ROOT" || g.Name() == "EOF")
 		}
 	case *ssa.MakeInterface:
 		return true
